@@ -1,6 +1,8 @@
 package limiter
 
 import (
+	"errors"
+
 	"github.com/gofiber/fiber/v3"
 )
 
@@ -22,4 +24,19 @@ func New(config ...Config) fiber.Handler {
 
 	// Return the specified middleware handler.
 	return cfg.LimiterMiddleware.New(cfg)
+}
+
+// effectiveStatus returns the status the request will be answered with, as far as the middleware can
+// know it: a handler that returns an error has not written a status yet (the error handler does that
+// after the middleware has returned), so the status is taken from the error the way the default error
+// handler does: the code of a *fiber.Error, otherwise 500.
+func effectiveStatus(c fiber.Ctx, err error) int {
+	if err != nil {
+		var e *fiber.Error
+		if errors.As(err, &e) {
+			return e.Code
+		}
+		return fiber.StatusInternalServerError
+	}
+	return c.Response().StatusCode()
 }
